@@ -343,3 +343,30 @@ func H_C06_file_layouts() {
 	vAssert(got == want, "C06 layouts: every byte outside the annotated fields' tag literals is unchanged")
 	vReach("end")
 }
+
+// unexported fields and byte-identical fields: the field that carries the comment gets the tag, at its own place
+func H_C06_file_unexported_and_identical() {
+	v := vTagVal("v", 2, true)
+	structs := []vStructSrc{
+		{name: "A", fields: []vField{
+			{name: "ID", typ: "int64", hasTag: true, tag: "json:\"id\""},
+			{name: "age", typ: "int32", hasTag: true, tag: "json:\"age\"", comment: "// @tag valid:\"" + v + "\""},
+			{name: "Name", typ: "string", hasTag: true, tag: "json:\"name\""},
+		}},
+		{name: "B", fields: []vField{
+			{name: "ID", typ: "int64", hasTag: true, tag: "json:\"id\"", comment: "// @tag valid:\"required\""},
+			{name: "Name", typ: "string", hasTag: true, tag: "json:\"name\"", comment: "// @tag valid:\"" + v + "\""},
+			{name: "sizeCache", typ: "int32"},
+		}},
+	}
+	src, f := vBuildSource("", structs, "")
+	got, err := vRunInjector("i.go", src, f)
+	vAssert(err == nil, "C06 unexported / identical fields: processing succeeds")
+	want := vExpectedSource("", structs, "", map[string]string{
+		"A.age":  "json:\"age\" valid:\"" + v + "\"",
+		"B.ID":   "json:\"id\" valid:\"required\"",
+		"B.Name": "json:\"name\" valid:\"" + v + "\"",
+	})
+	vAssert(got == want, "C06 unexported / identical fields: each annotated field is merged at its own position")
+	vReach("end")
+}
